@@ -10,6 +10,7 @@ import (
 	"sort"
 
 	"pault.ag/go/debian/deb"
+	"pault.ag/go/debian/dependency"
 
 	"verifharness/mc"
 )
@@ -100,6 +101,31 @@ func (o Obs) Brief() string {
 		s += " data-error=" + o.DataErr
 	}
 	return s
+}
+
+// Shape is Brief without error texts (stable across runs that fail for the same reason class).
+func (o Obs) Shape() string {
+	switch {
+	case o.Panic != "":
+		return "panic"
+	case !o.Loaded:
+		return "load error"
+	}
+	c := o
+	if c.DataErr != "" {
+		c.DataErr = "error"
+	}
+	return c.Brief()
+}
+
+func possNames(rels []dependency.Relation) []string {
+	var out []string
+	for _, r := range rels {
+		for _, p := range r.Possibilities {
+			out = append(out, p.Name)
+		}
+	}
+	return out
 }
 
 // Observe loads the bytes with the real deb.Load, drains Deb.Data, then calls after (may be nil; C16 verifies the
